@@ -582,3 +582,42 @@ def _merge(vs, ln):
             if v.verdict == kind:
                 return v
     return V("undecided", "empty", "no verdict", ln)
+
+
+
+def make_rule(rid, select, floor, what):
+    """`predict_inplace` of the selected models overwrites the caller's buffer: nothing of what the buffer held is read or
+    accumulated into (BLAS-style calls need beta = 0)"""
+    from .core import RuleResult
+    from .facts import fn_key, fn_loc
+
+    def rule(ctx):
+        res = RuleResult(rid, "predict_inplace of %s writes its result into the target without reading or accumulating into its previous content" % what)
+        F = ctx.facts()
+        ck = Checker(F)
+        # macro-generated impls (linfa-svm's impl_predict!) are predict_inplace bodies like any other
+        fns = [f for f in F.all_fns() if f["d"]["name"] == "predict_inplace" and select(f)]
+        if len(fns) < floor:
+            res.missing_anchor("predict_inplace of %s (found %d)" % (what, len(fns)))
+        for fn in fns:
+            key = fn_key(fn) + " [" + (fn["inputs"][1][:24] if len(fn["inputs"]) > 1 else "") + "]"
+            ps = fn["params"]
+            if len(ps) < 3 or ps[2].get("k") != "Bind":
+                res.instance(key)
+                res.undecided("%s : target-parameter" % key, "third parameter of predict_inplace is not a plain binding", fn_loc(fn))
+                continue
+            vs = ck.check(fn, ps[2]["local"])
+            res.instance("%s : %d uses of the target classified" % (key, len(vs)))
+            bad = [v for v in vs if v.verdict != "ok"]
+            if not vs:
+                res.undecided("%s : no-write" % key, "no write to the target recognised", fn_loc(fn))
+            elif not bad:
+                res.ok()
+            for v in bad:
+                if v.verdict == "violation":
+                    res.violate("%s : %s" % (key, v.kind), v.msg, fn_loc(fn, v.ln))
+                else:
+                    res.undecided("%s : %s" % (key, v.kind), v.msg, fn_loc(fn, v.ln))
+        return res.finish(floor)
+    rule.__name__ = "rule_" + rid.replace("-", "_")
+    return rule
